@@ -154,6 +154,14 @@ def run(ctx):
                          sample={"cost": name, "n": n, "p": p, "interval": [s, e], "value": row.tolist()})
                 ctx.count("cost", name.split("(")[0])
                 ctx.count("mode", "optim" if dparam is None else "fixed")
+                if dk == "gcov" and dparam is None and e - s > 0:
+                    cm = np.cov(X[s:e], rowvar=False, ddof=0).reshape(p, p)
+                    ev = np.linalg.eigvalsh(cm)
+                    if want is not None and ev.min() <= 1e-9 * max(1.0, ev.max()):
+                        # numerically singular sample covariance: log det is pure rounding noise, whether the documented error is raised
+                        # depends on the sign of that noise; neither a value nor the error can be demanded (outside "moderate dynamic range")
+                        ctx.count("outcome", "numerically-singular: not compared")
+                        continue
                 if want is None:
                     if dk == "gcov" and dparam is None:
                         ctx.violation(f"{name}: interval [{s},{e}) has a singular sample covariance but evaluate returned {row.tolist()} instead of the documented error",
